@@ -106,6 +106,10 @@ def run_bounded(chk):
     n_eval = n_cases = 0
     polys = {k: v for k, v in corpus.polygons_2d().items()
              if k in ("triangle", "unit_square", "rect", "quad_irregular", "pentagon_irregular", "regular5", "regular7", "regular12")}
+    # shapes whose centroid does not project orthogonally onto every edge (the foot of the perpendicular lies outside the edge)
+    polys["sheared_parallelogram"] = [(0, 0), (1, 0), (4, 1), (3, 1)]
+    polys["obtuse_triangle"] = [(0, 0), (6, 0), (5, 1)]
+    polys["long_trapezoid"] = [(0, 0), (8, 0), (7.5, 1), (6.5, 1)]
     for name, pts in polys.items():
         pts = [(float(x), float(y)) for x, y in pts]
         for rot in (0.0, 0.37):
